@@ -16,6 +16,7 @@ import (
 	"net"
 	"net/http"
 	"net/http/httptest"
+	"os"
 	"sort"
 	"strconv"
 	"strings"
@@ -47,6 +48,7 @@ type Engine struct {
 	Same       [][2]string // (cur, new): the real Proxy.Differs says the listen address is the same
 	envLines   []string
 	lastPop    string
+	CurFile    string
 	EnvOK      bool // the measured Differs relation satisfies the hypothesis of C17_spelling
 	seen       run.Seen
 }
@@ -404,6 +406,9 @@ func (e *Engine) RunGen(gen func(snap string) string, n int, res *report.Result)
 }
 
 func (e *Engine) run(ops []string, gen func(snap string) string, n int, res *report.Result) ([]string, *report.Failure) {
+	if e.CurFile != "" && gen == nil {
+		os.WriteFile(e.CurFile, []byte(strings.Join(ops, "\n")+"\n"), 0o644)
+	}
 	e.D.Reset()
 	e.sendEnv()
 	e.lastPop = ""
@@ -425,6 +430,9 @@ func (e *Engine) run(ops []string, gen func(snap string) string, n int, res *rep
 			}
 			op = gen(snap)
 			ops = append(ops, op)
+			if e.CurFile != "" {
+				os.WriteFile(e.CurFile, []byte(strings.Join(ops, "\n")+"\n"), 0o644)
+			}
 		} else {
 			if i >= len(ops) {
 				break
